@@ -1,4 +1,6 @@
 SPECIFICATION TCSpec
-CONSTANT ZeroTag = "0"
+CONSTANTS
+  ZeroTag = "0"
+  Key <- PairKey
 POSTCONDITION Accepted
 CHECK_DEADLOCK FALSE
